@@ -179,8 +179,8 @@ func TestVerif_C09_h2mux(t *testing.T) {
 		// started, how far the peer's script for each caller's stream has got
 		var startedL []int
 		started := map[int]bool{}
-		stage := map[int]int{} // 0 nothing sent, 1 head sent, 2 END_STREAM / RST sent
-		calm := r.Intn(3) != 0  // most cases avoid the frames that kill the whole connection
+		stage := map[int]int{}    // 0 nothing sent, 1 head sent, 2 END_STREAM / RST sent
+		calm := r.Intn(3) != 0    // most cases avoid the frames that kill the whole connection
 		b := func(p int) string { // "1" with probability 1/p
 			if r.Intn(p) == 0 {
 				return "1"
